@@ -323,7 +323,7 @@ pub fn run(ctx: &Ctx) -> ! {
             "source address of a wildcard-bound sender towards a non-loopback target is not fixed by the property: probes towards connected receivers whose outcome depends on it are classified 'either'".into(),
             "TCP stream sockets are closed pairwise and quiesced (Q fault-free rounds) before the next op; fault-free wire".into(),
         ],
-        min_distinct: ctx.pick(1000, 15_000),
+        min_distinct: ctx.pick(1000, 20_000),
         required_counters: vec![
             "bind_ok_udp",
             "bind_ok_tcp",
@@ -360,7 +360,7 @@ pub fn run(ctx: &Ctx) -> ! {
     }
     let mut report = Report::default();
     report.max_samples = 2;
-    let budget = ctx.pick(50.0, 480.0);
+    let budget = ctx.pick(50.0, 300.0);
     {
         let n = directed().len() as u64;
         let rep = vcore::run_parallel(ctx, n, RunOpts::default(), move |i| {
